@@ -1,6 +1,8 @@
 /-
   C14 — Metadata follows the documented precedence and honours opt-out.
 -/
+import Distill.Proofs.IEReader
+import Distill.Gen.Funcs
 import Distill.Model.Markup
 import Distill.Gen.Funcs
 namespace Distill.C14
@@ -123,6 +125,34 @@ theorem optout_empty (srcs : List MSource) (h : ∃ s ∈ srcs, s.optOut = true)
 theorem sources_order (u : Bool) (og schema ie : MSource) :
     sources u og schema ie = if u then [og, schema, ie] else [schema, ie] := by
   cases u <;> rfl
+
+/-! ### the IE Reading View accessor, from the document tree (model: Distill.Model.IEReader,
+stage `iereader`) -/
+
+theorem ie_reader_tie : Gen.ieReaderBodies = Gen.ieReaderBodiesExpected := by rfl
+
+/-- every `meta` element anywhere below the document element — `head` or `body`, however deep —
+is among the ones the accessor scans -/
+theorem optout_tag_anywhere (root e : Node) (h : IE.OccursL e root.kids) (ht : e.tag = "meta") :
+    e ∈ IE.withTag root "meta" :=
+  IE.meta_anywhere_is_scanned root e h ht
+
+/-- **Opt-out, from the page**: when the first scanned `meta` named IE_RM_OFF (any letter case)
+says `true` (any letter case), `MarkupInfo` is entirely empty — whatever OpenGraph and schema.org
+provide. -/
+theorem page_optout_empties (A : IE.Atoms) (root m : Node) (before after : List Node) (others : List MSource)
+    (hsplit : IE.withTag root "meta" = before ++ m :: after)
+    (hbefore : ∀ x ∈ before, IE.isOptOutName A x = false) (hm : IE.isOptOutName A m = true)
+    (htrue : IE.saysTrue A m = true) :
+    combine (others ++ [IE.source A root]) = {} := by
+  apply optout_empty
+  refine ⟨IE.source A root, by simp, ?_⟩
+  rw [IE.source_optOut, IE.optOut_first_decides A root m before after hsplit hbefore hm, htrue]
+
+/-- and a page without such a tag does not opt out through this accessor -/
+theorem page_without_tag_no_optout (A : IE.Atoms) (root : Node)
+    (h : ∀ x ∈ IE.withTag root "meta", IE.isOptOutName A x = false) : (IE.source A root).optOut = false := by
+  rw [IE.source_optOut]; exact IE.optOut_none A root h
 
 /-! ### non-vacuity -/
 def ogS : MSource := { title := "OG title", type := "Article", url := "http://e/", images := [{ url := "i.png" }],
